@@ -158,6 +158,54 @@ def run(res, tier="quick", seed=0, widen=False):
             except Exception as e:  # noqa: BLE001
                 viol.append(dict(sig=dict(stream="grouped-vs-ungrouped", timed=True, what="raised"), case=case, observed=repr(e)[:200], expected=str(out), what="ungrouped timed ema raised"))
 
+    # ------------------------------------------------ 2b real-valued halflives x timestamp resolutions
+    # "one half to the elapsed time divided by the halflife": the same instants expressed in s / ms / us / ns (or
+    # as datetime64 of those resolutions) with a halflife that is NOT a whole number of ticks of that resolution
+    per_unit = {"ns": 10**9, "us": 10**6, "ms": 10**3, "s": 1}
+    HLS = ["1500ms", "2.5s", "750ms", "1s", "90s", "0.3s", "1min", "1234567us"]
+    for t_ in range(500 if tier == "quick" else 5000):
+        L = rng.randint(1, 9)
+        codes = [rng.choice([0, 0, 1]) for _ in range(L)]
+        vals = [rng.choice(VALS) for _ in range(L)]
+        steps, t = [], rng.choice([0, 5, 1_600_000_000])
+        for _ in range(L):
+            t += rng.choice([0, 1, 1, 2, 3, 7, 61])
+            steps.append(t)
+        unit = rng.choice(["s", "s", "ms", "us", "ns"])
+        hl = rng.choice(HLS)
+        h_s = pd.Timedelta(hl).total_seconds()
+        mask = None if rng.random() < 0.7 else [rng.random() < 0.7 for _ in range(L)]
+        case = dict(stream="timed-real-halflife", codes=codes, values=[None if v is None else str(v) for v in vals], times_s=steps, unit=unit, halflife=hl, mask=mask)
+        res.note_case(repr(case), True)
+        res.count("stream", "timed-real-halflife"); res.count("unit", unit); res.count("halflife", hl)
+        want = []
+        for i in range(L):
+            valid = [j for j in range(i + 1) if codes[j] == codes[i] and vals[j] is not None and (mask is None or mask[j])]
+            if not valid:
+                want.append(None)
+                continue
+            tl = steps[valid[-1]]
+            ws = [0.5 ** ((tl - steps[j]) / h_s) for j in valid]
+            want.append(sum(w * float(vals[j]) for w, j in zip(ws, valid)) / sum(ws))
+        times = (np.array(steps, dtype="int64") * per_unit[unit]).view(f"datetime64[{unit}]")
+        try:
+            out = canon_out(ema_grouped(np.array(codes, dtype="int64"), 2, mk_vals(vals, "float64"), halflife=hl, times=times, mask=np_mask(mask)))
+        except Exception as e:  # noqa: BLE001
+            viol.append(dict(sig=dict(stream="timed-real-halflife", what="raised", unit=unit), case=case, observed=repr(e)[:200], expected=str(want), what="timed ema_grouped raised"))
+            continue
+        if not all(close(a, b, 1e-9) for a, b in zip(out, want)):
+            viol.append(dict(sig=dict(stream="timed-real-halflife", what="closed-form", unit=unit, halflife=hl), case=case, observed=str(out), expected=str(want),
+                             what="timed ema_grouped differs from the time-weighted mean with weights (1/2)^(dt/halflife)"))
+        if all(k == 0 for k in codes) and mask is None:
+            try:
+                ung = canon_out(ema(mk_vals(vals, "float64"), halflife=hl, times=times))
+                fv = next((i for i, v in enumerate(vals) if v is not None), None)
+                if fv is not None and not all(close(a, b, 1e-9) for a, b in zip(want[fv:], ung[fv:])):
+                    viol.append(dict(sig=dict(stream="timed-real-halflife", what="ungrouped", unit=unit, halflife=hl), case=case, observed=str(ung), expected=str(want),
+                                     what="ungrouped timed ema differs from the time-weighted mean"))
+            except Exception as e:  # noqa: BLE001
+                viol.append(dict(sig=dict(stream="timed-real-halflife", what="ungrouped-raised"), case=case, observed=repr(e)[:200], expected=str(want), what="ungrouped timed ema raised"))
+
     # ------------------------------------------------ 3/4 ungrouped vs model, grouped(single) vs ungrouped
     ung_cases = []
     for _ in range(800 if tier == "quick" else 8000):
